@@ -1454,6 +1454,37 @@ static void h_c_print(const char *cmd, cfg_t *cfg)
 	free(text);
 }
 
+/* roundtrip SRC DST: print context SRC (indent 0) into memory and parse that text into context DST */
+static void h_c_roundtrip(const char *cmd, cfg_t *cfg)
+{
+	long d = h_long(2);
+	char *text = NULL;
+	size_t len = 0;
+	h_buf b = { 0 };
+	FILE *fp;
+	int rc;
+
+	if (h_bad || d < 0 || d >= H_MAXID) {
+		h_bad = 1;
+		return;
+	}
+	if (!h_ctx[d]) {
+		h_line("%s rc=nocontext", cmd);
+		return;
+	}
+	h_filt_purge();
+	fp = open_memstream(&text, &len);
+	if (!fp)
+		h_die("open_memstream");
+	H_LIB(cfg_print_indent(cfg, fp, 0));
+	fclose(fp);
+	H_LIB(rc = cfg_parse_buf(h_ctx[d], text));
+	h_buf_hex(&b, text, len);
+	h_std(cmd, "rc=%d text=%s", rc, h_buf_str(&b));
+	h_buf_free(&b);
+	free(text);
+}
+
 /* tilde NAME / lookup C NAME: the scenario directory prefix is printed back as @R */
 static void h_c_expand(const char *cmd, cfg_t *cfg)
 {
@@ -1519,6 +1550,7 @@ static const struct h_cmd {
 	{ "rmtsec", h_c_edit, 1, 4, 4 },
 	{ "validate", h_c_hook, 1, 4, 4 }, { "validate2", h_c_hook, 1, 4, 4 }, { "printfunc", h_c_hook, 1, 4, 4 },
 	{ "filter", h_c_hook, 1, 3, H_MAXTOK }, { "print", h_c_print, 1, 3, 3 }, { "printopt", h_c_print, 1, 3, 3 },
+	{ "roundtrip", h_c_roundtrip, 1, 3, 3 },
 	{ "tilde", h_c_expand, 0, 2, 2 }, { "lookup", h_c_expand, 1, 3, 3 },
 	{ "failalloc", h_c_count, 0, 2, 2 }, { "live", h_c_count, 0, 1, 1 },
 };
